@@ -41,6 +41,8 @@ def _run(prop, item):
         rr = subprocess.run([os.path.join(VERIF, 'check'), prop, '--tier', 'quick'], cwd=VERIF, env=env, stdout=subprocess.PIPE, stderr=subprocess.STDOUT, text=True)
         verdict = {0: 'silent', 1: 'violation', 2: 'inconclusive'}.get(rr.returncode, f'rc{rr.returncode}')
         first = next((l.strip() for l in rr.stdout.split('\n') if l.startswith('  ')), '')
+        crash = next((l.strip() for l in rr.stdout.split('\n') if 'anchor=internal' in l), '')
+        if crash: first = crash
         return name, expect, verdict, first[:240]
     finally:
         shutil.rmtree(tmp, ignore_errors=True)
@@ -57,6 +59,7 @@ def selftest(prop, rep):
         summary.append(dict(item=name, expect=expect, verdict=verdict, first=first))
         if verdict == 'not-applicable':
             rep.note(f'self-test item {name} skipped: {first}'); continue
+        if 'anchor=internal' in first: rep.anchor_missing(f'selftest:{name}', 'the checker crashed: ' + first[:160]); continue
         ok = verdict == expect or (name in ACCEPT_INCONCLUSIVE and verdict == 'inconclusive') or (expect == 'no-violation' and verdict in ('silent', 'inconclusive'))
         if ok: rep.ok('SELF', f'{name}: {verdict}' + (f' — {first[:120]}' if expect == 'violation' else ''), 'selftest', nontrivial=True)
         else: rep.anchor_missing(f'selftest:{name}', f'expected {expect}, the check says {verdict}: {first[:160]}')
